@@ -4,7 +4,7 @@
    straight-line code (what code that never names rsp as a destination and stores only into the spill
    area leaves alone), and execution inside an image up to a final observation. *)
 From Coq Require Import List ZArith NArith String Bool Lia FMapPositive.
-From SCC Require Import Base.Sexp Lang.AxSyn Sem.AxSem Model.ParMoves Model.Backend Model.X86 Sem.X86Sem
+From SCC Require Import Base.Sexp Lang.AxSyn Sem.AxSem Model.ParMoves Model.Backend Model.X86 Sem.X86Sem Sem.X86Wf
      Generated.Constants Proof.X86State Proof.X86Sel Proof.X86Exec Proof.X86ParMoves Proof.SubstGraph Proof.X86Subst.
 Import ListNotations.
 Open Scope Z_scope.
@@ -213,10 +213,29 @@ Lemma finishes_done im pc c s s' :
   PM.find pc (code im) = Some c -> step im c s = Done s' -> finishes im pc s (finish (out s') (final_check s')).
 Proof. intros Hc Hs. exists 1%nat, s'. cbn [run_chunk]. now rewrite Hc, Hs. Qed.
 
-(* jumping to a label that sits in placed code *)
+(* jumping to a label that sits in placed code.  Only labels that do not start with '#' are required
+   to resolve to their own position: these are the labels whose uniqueness the assembler-level check
+   `asm_wf` (Sem/X86Wf.v) establishes on the real output. *)
+Definition labels_at_nh (im : image) (pc : positive) (cs : list xcode) : Prop :=
+  forall j l, nth_error cs j = Some (LAB l) -> is_hash_label l = false -> find_label (labels im) l = Some (padd pc j).
+Lemma labels_at_nh_app im pc a b :
+  labels_at_nh im pc (a ++ b) <-> labels_at_nh im pc a /\ labels_at_nh im (padd pc (List.length a)) b.
+Proof.
+  unfold labels_at_nh. split.
+  - intros H. split.
+    + intros j c Hj. apply H. rewrite nth_error_app1; auto. apply nth_error_Some. congruence.
+    + intros j c Hj. rewrite <- padd_add. apply H. rewrite nth_error_app2 by lia.
+      replace (List.length a + j - List.length a)%nat with j by lia. exact Hj.
+  - intros [Ha Hb] j c Hj. destruct (Nat.lt_ge_cases j (List.length a)) as [L|L].
+    + apply Ha. now rewrite nth_error_app1 in Hj.
+    + rewrite nth_error_app2 in Hj by lia. intros NH. apply Hb in Hj; [|exact NH]. rewrite <- padd_add in Hj.
+      now replace (List.length a + (j - List.length a))%nat with j in Hj by lia.
+Qed.
+Lemma labels_at_weaken im pc cs : labels_at im pc cs -> labels_at_nh im pc cs.
+Proof. intros H j l Hj _. exact (H j l Hj). Qed.
 Lemma goto_label_at im pc cs j l s :
-  labels_at im pc cs -> nth_error cs j = Some (LAB l) -> goto_label im s l = Jump s (padd pc j).
-Proof. intros LA H. unfold goto_label. now rewrite (LA j l H). Qed.
+  labels_at_nh im pc cs -> nth_error cs j = Some (LAB l) -> is_hash_label l = false -> goto_label im s l = Jump s (padd pc j).
+Proof. intros LA H NH. unfold goto_label. now rewrite (LA j l H NH). Qed.
 Lemma code_at_nth im pc cs j c : code_at im pc cs -> nth_error cs j = Some c -> PM.find (padd pc j) (code im) = Some c.
 Proof. intros CA H. exact (CA j c H). Qed.
 Lemma nth_error_mid {X} (a : list X) x b : nth_error (a ++ x :: b) (List.length a) = Some x.
